@@ -903,6 +903,15 @@ impl<'t, 'd, 'e> Presenter<'t, 'd, 'e> {
 				4 => (P::Struct("D", vec![("months", P::U32(*m)), ("days", P::U32(*d)), ("months", P::U32(*ms))]), "duration-field-twice".into()),
 				_ => (P::Map(None, vec![(P::Str("months".into()), P::U32(*m)), (P::Str("days".into()), P::U32(*d))], true), "duration-missing-field".into()),
 			}),
+			(Kind::DecimalBytes { scale }, _) | (Kind::DecimalFixed { scale, .. }, _) if *scale >= 1 && *scale <= 9 && (matches!(k, Kind::DecimalBytes { .. }) || self.tape.bool()) => {
+				// an integer literal whose own mantissa fits 96 bits but which, expressed at the schema's
+				// scale, does not: beyond the documented limits, cannot be represented
+				let pow = 10u128.pow(*scale);
+				let lo = (1u128 << 96) / pow + 1;
+				let m = lo + (self.tape.u64() as u128) % ((1u128 << 96) - lo);
+				let neg = self.tape.bool();
+				Some((P::Str(format!("{}{m}", if neg { "-" } else { "" })), "decimal-exceeds-96-bit-mantissa-at-schema-scale/str".into()))
+			}
 			(Kind::DecimalFixed { scale, size }, _) if *size < 16 => {
 				// a number that needs more than `size` bytes
 				let bits = 8 * *size as u32;
